@@ -38,7 +38,7 @@ def names(tier):
 
 INT = {"type": "integer"}
 USES = ("member", "variant", "def", "member_reqonly", "member_flat", "ext_variant", "int_variant")
-PAIR_USES = {"member": ("member", "member_mixed", "member_reqonly"), "variant": ("variant",), "def": ("def",), "member_flat": ("member_flat",),
+PAIR_USES = {"member": ("member", "member_mixed", "member_reqonly", "vmember_ext", "vmember_int", "vmember_unt", "vmember_adj"), "variant": ("variant",), "def": ("def",), "member_flat": ("member_flat",),
              "ext_variant": ("ext_variant",), "int_variant": ("int_variant",), "member_reqonly": ()}
 
 
@@ -56,6 +56,20 @@ def doc_for(use, ns):
     if use == "member_flat":
         # next to a flattened additional-properties member (which typify names `extra`, `extra_`, ...)
         return {"definitions": {"T": {"type": "object", "properties": {n: INT for n in ns[:1]}, "required": ns, "additionalProperties": {"type": "string"}}}}, ns
+    if use.startswith("vmember_"):
+        # the names are members of a STRUCT VARIANT of an enum (externally / internally / adjacently tagged, untagged)
+        body = {"type": "object", "properties": {n: INT for n in ns}, "required": ns}
+        if use == "vmember_ext":
+            subs = [{"type": "object", "properties": {"V": body}, "required": ["V"], "additionalProperties": False}, {"type": "string", "enum": ["U"]}]
+        elif use == "vmember_int":
+            b2 = {"type": "object", "properties": dict(body["properties"], tag9={"type": "string", "enum": ["V"]}), "required": ns + ["tag9"]}
+            subs = [b2, {"type": "object", "properties": {"tag9": {"type": "string", "enum": ["U"]}}, "required": ["tag9"]}]
+        elif use == "vmember_adj":
+            subs = [{"type": "object", "properties": {"tag9": {"type": "string", "enum": ["V"]}, "c9": body}, "required": ["tag9", "c9"]},
+                    {"type": "object", "properties": {"tag9": {"type": "string", "enum": ["U"]}}, "required": ["tag9"]}]
+        else:
+            subs = [dict(body, additionalProperties=False), {"type": "integer"}]
+        return {"definitions": {"T": {"oneOf": subs}}}, ns
     if use == "variant":
         return {"definitions": {"T": {"type": "string", "enum": ns}}}, ns
     if use == "ext_variant":
@@ -130,6 +144,22 @@ def observe(c, a):
         fields = [f for f in fields if not any(x["key"] == "flatten" for x in f["attrs"].get("serde", []))]
         if len(set(fn)) != len(fn):
             probs.append("duplicate field identifiers %s" % fn)
+        wires = [wire_name(f["name"], f["attrs"]) for f in fields]
+        if sorted(wires) != sorted(c["wires"]):
+            probs.append("wire names %r != JSON names %r" % (sorted(wires), sorted(c["wires"])))
+        for f, w in zip(fields, wires):
+            idents[w] = f["name"]
+    elif c["use"].startswith("vmember_"):
+        en = [it for it in items if it.get("kind") == "enum" and it["name"] == "T"]
+        if not en:
+            return "ok", {}, ["enum T not found"]
+        sv = [v for v in en[0]["variants"] if v["body"]["style"] == "named"]
+        if len(sv) != 1:
+            return "ok", {}, ["expected one struct variant, found %d" % len(sv)]
+        fields = sv[0]["body"]["fields"]
+        fn = [f["name"] for f in fields]
+        if len(set(fn)) != len(fn):
+            probs.append("duplicate field identifiers %s in the struct variant" % fn)
         wires = [wire_name(f["name"], f["attrs"]) for f in fields]
         if sorted(wires) != sorted(c["wires"]):
             probs.append("wire names %r != JSON names %r" % (sorted(wires), sorted(c["wires"])))
